@@ -62,7 +62,7 @@ type H struct{}
 
 func (H) Name() string { return "racesim" }
 
-var scenarios = []string{"tracker", "metrics", "cluster", "crdt", "informers", "tracker_fail"}
+var scenarios = []string{"tracker", "metrics", "cluster", "crdt", "informers", "tracker_fail", "checks_overlap"}
 
 var opsOf = map[string][]string{
 	"tracker":   {"track", "track", "untrack", "status", "statusall", "recover", "recoverall", "statusall", "release", "opcount"},
@@ -73,6 +73,9 @@ var opsOf = map[string][]string{
 	// directed: operations keep failing (every other daemon call is refused) while
 	// the other callers read statuses in the same instants
 	"tracker_fail": {"track", "recover", "status", "status", "statusall", "status", "recoverall", "untrack"},
+	// directed: metrics keep expiring while the checker's own ticker and several
+	// callers check the same peers in the same instants
+	"checks_overlap": {"log", "check", "checkall", "check", "alerts", "checkall", "log", "check"},
 }
 
 func (H) Generate(prop, tier string, seed uint64) *simkit.Plan {
@@ -93,6 +96,11 @@ func (H) Generate(prop, tier string, seed uint64) *simkit.Plan {
 	p.SetKnob("lock_yield", int64([]int{0, 30, 100, 300, 600}[r.Intn(5)]))
 	burst := r.Chance(0.2) // many alerts: the list is reset above 1000 entries
 	n := r.Range(8, 60)
+	if p.Scenario == "checks_overlap" {
+		n = r.Range(60, 200)
+		p.SetKnob("lock_yield", int64([]int{100, 300, 600}[r.Intn(3)]))
+		p.SetKnob("check_ms", int64([]int{5, 50}[r.Intn(2)]))
+	}
 	if p.Scenario == "tracker_fail" {
 		n = r.Range(40, 160)
 		p.SetKnob("lock_yield", int64([]int{100, 300, 600}[r.Intn(3)]))
@@ -108,6 +116,13 @@ func (H) Generate(prop, tier string, seed uint64) *simkit.Plan {
 		if p.Scenario == "tracker_fail" {
 			st.Ms = []int{0, 0, 0, 0, 1, 5}[r.Intn(6)]
 			st.Cid = r.Intn(int(p.Knob("ncids", 2)))
+		}
+		if p.Scenario == "checks_overlap" {
+			st.Ms = []int{0, 0, 0, 1, 5, 5, 10}[r.Intn(7)]
+			st.TTLMs = []int{1, 5, 50}[r.Intn(3)]
+			st.Valid = true
+			st.Peer = r.Intn(2)
+			st.Cid = 0
 		}
 		st.Valid = r.Chance(0.8)
 		st.TTLMs = []int{1, 50, 500, 5000}[r.Intn(4)]
@@ -135,7 +150,7 @@ func (H) Execute(t *testing.T, plan *simkit.Plan, run *simkit.Run) {
 	switch plan.Scenario {
 	case "tracker", "tracker_fail":
 		do, cleanup = trackerWorld(plan, run)
-	case "metrics":
+	case "metrics", "checks_overlap":
 		do, cleanup = metricsWorld(plan, run)
 	case "cluster":
 		do, cleanup = clusterWorld(plan, run)
@@ -337,6 +352,8 @@ func trackerWorld(plan *simkit.Plan, run *simkit.Run) (func(Step), func()) {
 
 // ------------------------------------------------------------------ metrics store, checker, pubsub monitor
 
+var metricSeq atomic.Int64
+
 func metricsWorld(plan *simkit.Plan, run *simkit.Run) (func(Step), func()) {
 	ctx, cancel := context.WithCancel(context.Background())
 	net := simkit.NewNet(run, time.Millisecond)
@@ -377,12 +394,25 @@ func metricsWorld(plan *simkit.Plan, run *simkit.Run) (func(Step), func()) {
 		}
 		run.Probe("metric_lists_checked")
 	}
+	var alertMu sync.Mutex
+	alerted := map[string]int{}
 	drain := func(ch <-chan *api.Alert) {
 		for {
 			select {
 			case a := <-ch:
 				if a == nil || a.Name == "" || a.Peer == "" {
 					run.Violate("C18/torn_alert", "", "an alert without name or peer was delivered: %+v", a)
+				} else if a.Value != "" {
+					// one expiry, one alert, also when two check rounds overlap (the
+					// ticker's and a caller's): the failure count is read and bumped as one
+					k := fmt.Sprintf("%p|%s|%s|%s", ch, a.Peer, a.Name, a.Value)
+					alertMu.Lock()
+					alerted[k]++
+					n := alerted[k]
+					alertMu.Unlock()
+					if n == 2 {
+						run.Violate("C18/alert_duplicated", "", "the expiry of one metric (%s of peer %s, value %s) was alerted twice: overlapping check rounds both took it for new", a.Name, a.Peer, a.Value)
+					}
 				}
 				run.Probe("alerts_read")
 			default:
@@ -394,7 +424,9 @@ func metricsWorld(plan *simkit.Plan, run *simkit.Run) (func(Step), func()) {
 		pid := simkit.TestPeer(s.Peer)
 		name := names[s.Cid%2]
 		mk := func() *api.Metric {
-			return &api.Metric{Name: name, Peer: pid, Value: fmt.Sprintf("%d", s.N*100), Valid: s.Valid, Expire: time.Now().Add(time.Duration(s.TTLMs) * time.Millisecond).UnixNano(), ReceivedAt: time.Now().UnixNano()}
+			// (every logged metric has a value of its own: an alert names the metric
+			// that expired, so two alerts with one value are two alerts for one expiry)
+			return &api.Metric{Name: name, Peer: pid, Value: fmt.Sprintf("%d", metricSeq.Add(1)), Valid: s.Valid, Expire: time.Now().Add(time.Duration(s.TTLMs) * time.Millisecond).UnixNano(), ReceivedAt: time.Now().UnixNano()}
 		}
 		switch s.Op {
 		case "log":
